@@ -164,10 +164,11 @@ def work(args):
                     res['paths'] += ex2.n_paths
                     res['queries'] += ex2.n_queries
                     res['unknown'] += ex2.unknown
-                except Exception as e:
+                except (Exception, core.Unsupported) as e:
                     crash = '%s: %s' % (type(e).__name__, e)
                     tb = traceback.format_exc()
-            else:
+                    total = 99
+            if total > 4:
                 # too many bytes for the exact model: try canned multi-byte witnesses natively
                 for pat in (bytes.fromhex('e282ac'), bytes.fromhex('82ace2'), bytes.fromhex('ace282'), bytes.fromhex('c3a9'), bytes.fromhex('a9c3'), bytes.fromhex('f09f9880')):
                     vals = {}
@@ -180,7 +181,10 @@ def work(args):
                     f = core.Failure('decode=True result differs from the decoding of the whole concatenation (canned witness)', vals, [0] * 64, [])
                     f.canned = True
                     ex.failures.append(f)
-        if crash is not None:
+        if crash is not None and crash.startswith('Unsupported'):
+            res['unknown'] += 1
+            res['notes'].append('inconclusive: ' + crash)
+        elif crash is not None:
             # the symbolic run crashed: try the same prefix natively with a model of the path so far
             vals = {}
             try:
@@ -316,12 +320,13 @@ def report(pid, tier, seed, hmod, shapes, results, skipped, wall):
     if not samples:
         samples = [{'shape': s} for s in shapes[:3]]
     exhaustive = not capped and not skipped and not errors and n_unknown == 0
+    n_degraded = tot('degraded')
     status = 0
-    if errors or mismatches or unreproduced:
-        status = 3
-    elif violations:
+    if violations:
         status = 1
-    elif n_unknown:
+    elif errors or mismatches or unreproduced:
+        status = 3
+    elif n_unknown or n_degraded:
         status = 2
     evidence = {
         'property_id': pid, 'tier': tier, 'seed': seed, 'level': 'model_checking',
@@ -357,8 +362,8 @@ def report(pid, tier, seed, hmod, shapes, results, skipped, wall):
     for shape, f in unreproduced[:5]:
         print('HARNESS-ERROR property=%s counterexample did not reproduce natively: shape=%s label=%s values=%s choices=%s native_crash=%s\n%s' % (
             pid, json.dumps(shape), f['label'], json.dumps(f['values'])[:600], f['choices'][:60], f['native_crash'], f.get('native_tb') or ''))
-    if n_unknown:
-        print('INCONCLUSIVE property=%s solver returned unknown %d times' % (pid, n_unknown))
+    if n_unknown or n_degraded:
+        print('INCONCLUSIVE property=%s solver unknown / unrefinable %d times, degraded paths %d (an operation without a symbolic model was applied to symbolic data)' % (pid, n_unknown, n_degraded))
     print('%s %s: shapes=%d paths=%d decisions=%d queries=%d vcs=%d/%d validated=%d unknown=%d degraded=%d capped=%d skipped=%d known=%d violations=%d wall=%.1fs cpu=%.1fs solver=%.1fs -> exit %d' % (
         pid, tier, len(results), tot('paths'), tot('decisions'), tot('queries'), tot('vcs_unsat'), tot('vcs'), tot('validated'), n_unknown, tot('degraded'),
         len(capped), skipped, sum(n for _, n in known_hits.values()), len(violations), wall, sum(r.get('wall_s', 0) for r in results), tot('solver_s'), status))
